@@ -45,6 +45,15 @@ def lines(run):
             elif op[0] == "removeall":
                 out.append("%d start removeall" % t)
                 st[t] = {"op": "removeall"}
+            elif op[0] == "complete":
+                out.append("%d start complete" % t)
+                st[t] = {"op": "complete"}
+            elif op[0] == "configure":
+                # configure(levels=…, extra=…, patcher=…) is a SEQUENCE of lock-taking updates: each core-lock section
+                # is one `other` operation of the model, started when the section is entered
+                if any(k not in ("levels", "extra", "patcher") for k in op[1]):
+                    return None
+                st[t] = {"op": "configure"}
             elif op[0] == "fork":
                 out.append("%d start fork" % t)
                 # the order in which acquire_locks() will take the handler locks (WeakSet order)
@@ -77,6 +86,8 @@ def lines(run):
             if obj == "core" and cur and cur["op"] == "fork":
                 out.append("%d forkAcq %s" % (t, ids(cur["order"])))
             elif obj == "core":
+                if cur and cur["op"] == "configure":
+                    out.append("%d start other" % t)
                 out.append("%d acqCore" % t)
             elif obj.startswith("h"):
                 h = int(obj[1:])
@@ -134,6 +145,177 @@ def lines(run):
     return out
 
 
+# ----------------------------------------------------------------------------- what each returned call delivered
+import re as _re
+
+_RET = _re.compile(r"^ok ret (\d+) (\d+) wr=\[(.*?)\] skipped=\[(.*?)\] gone=\[(.*?)\] snap=\[(.*?)\]$")
+
+
+def _idl(txt):
+    return [int(x) for x in txt.split(",") if x.strip()]
+
+
+def run_info(run, levelno, hspec, LEVELNO):
+    """what `ret_judge` needs to know about one executed run"""
+    prog = run.program
+    thr = {}
+    for i, hid in enumerate(run.initial_ids):
+        thr[hid] = LEVELNO[hspec(prog["handlers"][i])[0]]
+    for tn, j, op, inv, ret, res in run.ops:
+        if op[0] == "add" and isinstance(res, int):
+            thr[res] = LEVELNO[hspec(op[1])[0]]
+    calls = {}
+    for tn, j, op, inv, ret, res in run.ops:
+        if op[0] == "log":
+            try:
+                calls[(int(tn[1:]), j)] = levelno(prog, op[2])
+            except KeyError:
+                pass
+    return {"items": {hid: list(snk.items) for hid, snk in run.sinks.items()}, "thr": thr, "calls": calls}
+
+
+def ret_judge(info, outs):
+    """Compare the model's bookkeeping of every logging call that went through its handler loop (answer `ok ret …`
+    of drivers/C02.lean: the partition of the registry snapshot proved by C02.snapshot_partition /
+    exactly_once_if_stable) with the real run: the handlers the model says were WRITTEN are exactly the sinks that
+    hold the message (once), the handlers it says were SKIPPED are exactly those whose threshold rejects the level
+    (what the model's free choice `skip` stands for), and the four classes partition the snapshot."""
+    bad, n = [], 0
+    for o in outs:
+        m = _RET.match(o)
+        if not m:
+            continue
+        n += 1
+        t, j = int(m.group(1)), int(m.group(2))
+        wr, sk, gone, snap = (_idl(m.group(i)) for i in (3, 4, 5, 6))
+        msg = "t%d-%d" % (t, j)
+        got = sorted(h for h, items in info["items"].items() if msg in items)
+        if sorted(wr) != got:
+            bad.append("call %s: the model delivered to handlers %r, the real sinks holding the message are %r"
+                       % (msg, sorted(wr), got))
+        if any(items.count(msg) > 1 for items in info["items"].values()):
+            bad.append("call %s: a sink holds the message more than once" % msg)
+        if sorted(wr + sk + gone) != sorted(snap) or len(set(snap)) != len(snap):
+            bad.append("call %s: written %r + skipped %r + found-stopped %r is not the snapshot %r" % (msg, wr, sk, gone, snap))
+        lv = info["calls"].get((t, j))
+        if lv is not None and all(h in info["thr"] for h in snap):
+            want = sorted(h for h in snap if info["thr"][h] > lv and h not in gone)
+            # a handler found stopped is never tested against the threshold by the model's trace (the threshold test
+            # precedes the lock in the code: a rejected stopped handler shows as skipped)
+            if sorted(sk) != want and sorted(sk) != sorted(h for h in snap if info["thr"][h] > lv):
+                bad.append("call %s (level no %d): the model skipped %r, the handlers whose threshold rejects it are %r"
+                           % (msg, lv, sorted(sk), want))
+    return bad, n
+
+
+# ----------------------------------------------------------------------------- at-fork hooks acceptor (drivers/C02hooks.lean)
+def hooks_lines(run):
+    """Projection of a real trace on Conc/ForkHooks.lean: forking threads (logger lock, the passes of the two hooks over
+    handler_locks / queue_locks, the fork point) and adding threads (the logger-lock section in which – or the point
+    at which – the new handler's lock is registered).  Returns (lines, meta) or None when the run is outside the model.
+    meta[i] = real size of the iterated sets minus the locks of the initial handlers, for `hooks_judge`."""
+    s = run.sched
+    if s.deadlock or s.errors or s.aborted:
+        return None
+    tr = s.trace
+    base = len(run.initial_ids)
+    out, meta = ["reset"], [None]
+    st = {}
+    sizes = {"handler_locks": base, "queue_locks": 0}
+    if not any(k == "iterbegin" and o in sizes for (_t, k, o, _v) in tr):
+        return None          # no pass of a hook over a traced handler/queue lock set: nothing to replay
+    nsets = len([n for n in getattr(run, "hook_sets", ("handler_locks", "queue_locks")) if n in sizes]) or 1
+
+    def emit(line, m=None):
+        out.append(line)
+        meta.append(m)
+
+    def section(pos, tn):
+        """events of thread tn after pos up to (excluding) its next release of the core lock"""
+        for e in tr[pos + 1:]:
+            if e[0] == tn:
+                if e[1] == "rel" and e[2] == "core":
+                    return
+                yield e
+
+    for pos, (tn, kind, obj, val) in enumerate(tr):
+        if not tn.startswith("t"):
+            return None
+        t = int(tn[1:])
+        cur = st.get(t)
+        if kind == "invoke":
+            op = json.loads(val)
+            st.pop(t, None)
+            if op[0] == "fork":
+                st[t] = {"op": "fork", "phase": "acquire", "n": 0}
+                emit("%d startFork" % t)
+            elif op[0] == "add":
+                st[t] = {"op": "add", "locked": False, "started": False}
+        elif kind == "lockreg" and obj in sizes:
+            sizes[obj] = val
+            if cur is None or cur["op"] != "add":
+                return None                     # a lock registered by something else than add(): outside the model
+            if not cur["started"]:
+                cur["started"] = True
+                emit("%d startAdd" % t)
+            emit("%d register" % t, sizes["handler_locks"] + sizes["queue_locks"] - base)
+        elif cur is None:
+            continue
+        elif kind == "return":
+            st.pop(t, None)
+        elif cur["op"] == "fork":
+            if kind == "acquired" and obj == "core":
+                emit("%d acq" % t)
+            elif kind == "iterbegin" and obj in sizes:
+                if cur["n"] == 0:
+                    emit("%d iterBegin" % t, sizes["handler_locks"] + sizes["queue_locks"] - base)
+            elif kind == "iterend" and obj in sizes:
+                # a hook iterates each of the non-logger sets once, one after the other: the model's pass ends
+                # with the last of them
+                cur["n"] += 1
+                if cur["n"] == nsets:
+                    emit("%d iterEnd" % t, sizes["handler_locks"] + sizes["queue_locks"] - base)
+                    cur["n"] = 0
+            elif kind == "forked":
+                emit("%d fork" % t)
+                cur["phase"] = "release"
+            elif kind == "rel" and obj == "core":
+                emit("%d rel" % t)
+        elif cur["op"] == "add":
+            if kind == "acquired" and obj == "core":
+                sect = list(section(pos, tn))
+                registers = any(e[1] == "lockreg" for e in sect)
+                publishes = any(e[1] == "W" and e[2] == "core.handlers" for e in sect)
+                if registers or (publishes and cur["started"]):
+                    if not cur["started"]:
+                        cur["started"] = True
+                        emit("%d startAdd" % t)
+                    cur["locked"] = True
+                    emit("%d acq" % t)
+            elif kind == "rel" and obj == "core" and cur["locked"]:
+                cur["locked"] = False
+                emit("%d rel" % t)
+    return out, meta
+
+
+def hooks_judge(lines, meta, outs):
+    bad = []
+    for i, (m, o) in enumerate(zip(meta, outs)):
+        if o.startswith(("reject", "bad-op")):
+            bad.append("event %d %r rejected by ForkHooks.step: %s" % (i, lines[i], o))
+            break
+        w = o.split()
+        if w[2] != "false":
+            bad.append("event %d %r: the model's hook saw the lock sets change during its pass (the real run did not fail)"
+                       % (i, lines[i]))
+            break
+        if m is not None and int(w[1]) != m:
+            bad.append("event %d %r: the model's lock sets hold %s run-time lock(s), the real weak sets %d"
+                       % (i, lines[i], w[1], m))
+            break
+    return bad
+
+
 # ----------------------------------------------------------------------------- activation acceptor (drivers/C02act.lean)
 def act_lines(run, mod):
     """Projection of a real trace on the activation protocol for ONE module name: every enable()/disable() of the
@@ -144,6 +326,7 @@ def act_lines(run, mod):
     if s.deadlock or s.errors or s.aborted:
         return None
     tr = s.trace
+    fine = bool(run.program.get("fine"))
     out, meta, rules = ["reset"], [None], []
     dictnum = {}
     nextdict = [1]
@@ -221,7 +404,10 @@ def act_lines(run, mod):
                     emit("%d readEn2 %d" % (t, d))
             elif kind == "Rv" and obj in ("core.activation_list", "core.activation_none"):
                 emit("%d readAct %d" % (t, len(rules)))
-                emit("%d fill" % t)
+                if not fine:
+                    emit("%d fill" % t)      # no scheduling point between the read and the cache fill
+            elif kind == "Wfill" and fine:
+                emit("%d fill" % t)          # "fine" programs: the fill is an event of its own, in its real position
     return out, meta, rules
 
 
